@@ -1,8 +1,9 @@
 package main
 
 import (
+	"fmt"
 	"go/token"
-	"go/types"
+	"os"
 	"strings"
 
 	"golang.org/x/tools/go/ssa"
@@ -12,16 +13,16 @@ func init() {
 	register(&propDef{
 		ID:      "C02",
 		Level:   "other",
-		Explain: "Atomic replacement, last-good-table and crash-freedom conditions decided on all paths/sites: (A1) the active table lives in one sync/atomic value that is touched only through Load/Store in the getter, the setter and package init; (A2) nothing writes a table after it has been handed to the publishing store (setter body and every caller); (A3) no function reachable from a per-request entry writes a route.Table/Route/Target that is shared (all schedules); (A4) one table snapshot per lookup; (L1) every SetTable call receives a constructor's result and is either unreachable from the constructor's error edge or (custom backend) relies on L2+L3; (L2) NewTable/NewTableCustom return a nil table with every possibly-non-nil error; (L3) SetTable stores only under t != nil; (L4) in the update loop the constructor's error edge goes back to the loop head without leaving the loop, installing a table or advancing the 'last installed text'; (P*) partial operations in everything reachable from NewTable/NewTableCustom/Parse/ParseAliases and the lookup path are guarded: submatch indices vs. the regexp's capture-group count under m != nil, Split indices vs. dominating length facts, integer divisions vs. non-zero facts, the ring allocation vs. usedSlots > 0, non-finite weights rejected by the parser, no MustCompile(non-constant)/panic on the lookup path, the custom definition list is nil-checked before it is dereferenced. (P9) every Route carries a Glob that is the result of a successful glob.Compile (the glob matcher dereferences it). (L4, extended) the last installed text is carried round the loop as an immutable string snapshot (tableBuffer.String()) and compared with the candidate, never as a byte view of the reused buffer; (A2/S5, extended) library calls that reorder their argument in place (sort.Slice, sort.Sort, slices.Sort*, copy) count as writes through it, also inside callees such as Table.Dump reached from logRoutes; Not decided: that gobwas/glob.Compile, net/url.Parse and regexp never panic (trusted).",
+		Explain: "Atomic replacement, last-good-table and crash-freedom conditions decided on all paths/sites; sites are found by role, no unexported function is named. (A1) the active table lives in exactly one package-level sync/atomic cell (atomic.Value, atomic.Pointer[Table], bare, behind a pointer, or wrapped in a struct with load/store methods) that is used only as the receiver of atomic operations; outside package initialisation it is stored only the parameter of the storing function, and it is loaded only by parameterless getters that return the table (transitively for unexported loaders); no plain package-level Table variable. (A2) nothing writes a table after it has been handed to the publishing store or to any function that hands its parameter on to it (shared rule for the store and its innermost wrapper, own rule for outer wrappers). (A3) no function reachable from a per-request entry writes a shared route.Table/Route/Target (all schedules). (A4) one table snapshot per lookup, also when the getter is called through a parameterless helper. (L1) every value that enters the publication chain outside package initialisation is nil or a constructor's result that is nil on every error: the constructor's own result, the result of a helper that hands it on (judged return by return), a merge or a helper parameter of such values - else the site must be dominated by the err == nil edge. (L2) NewTable/NewTableCustom and the helpers whose two results they hand on return a nil table with every possibly-non-nil error. (L3) the atomic store is reached only with a non-nil table (dominating t != nil in the storing function, or in every caller of an unexported storing helper). (L4) for every call of the text constructor from which a published table derives: the innermost loop around it (or around the call of the helper that contains it) is the update loop; walking forward from the constructor call along branches consistent with 'the constructor returned an error' (err != nil; one level up: the constants the helper returns on that path) every path comes back to the loop head without return/exit/panic and the last installed text arrives unchanged; the last installed text is a string (immutable snapshot) that is compared with the candidate text and receives it on the success path - as a loop-carried local, or as a captured variable / field of a watcher struct. (P1) constant indices into strings.Split-family results (also out of a small helper) need a dominating length fact, submatch indices a dominating m != nil and enough capture groups in the constant pattern (or a dominating length fact), slice bounds from strings.Index* a dominating >= 0 test. (P3) integer divisions in the builder/lookup region need a non-zero fact (for a helper parameter: at every call site). (P4) a float parsed by strconv.ParseFloat in the builder leaves its parser only under tests excluding NaN and both infinities (math.IsNaN/IsInf, f != f, |f| > MaxFloat64, or a predicate helper implying them); computed allocation sizes need a non-negative fact. (P7) no MustCompile(non-constant)/panic below Table.Lookup/LookupHost. (P8) the custom definition list is dereferenced only under a nil test, in NewTableCustom or the helpers it hands the pointer to. (P9) every store to Route.Glob stores the result of a glob.Compile that returned no error (through compile wrappers and route constructors), and Route literals set Glob. Not decided: that gobwas/glob.Compile, net/url.Parse and regexp never panic (trusted).",
 		Run:     runC02,
 		Trusted: []string{"sync/atomic.Value Load/Store are atomic", "gobwas/glob.Compile, net/url.Parse, regexp matching do not panic", "encoding/json stores nil into a pointer for the JSON text null"},
-		Mutants: []mutant{
+		Mutants: append([]mutant{
 			{Name: "last table kept as a view of the reused buffer", File: "main.go", Old: "\t\tlastTable   string\n", New: "\t\tlastTable   []byte\n", Expect: "C02.L4", More: []repl{{"\t\tnextTable   string\n", "\t\tnextTable   []byte\n"}, {"if nextTable = tableBuffer.String(); nextTable == lastTable {", "if nextTable = tableBuffer.Bytes(); bytes.Equal(nextTable, lastTable) {"}, {"aliases, err := route.ParseAliases(nextTable)", "aliases, err := route.ParseAliases(string(nextTable))"}, {"logRoutes(t, lastTable, nextTable, cfg.Log.RoutesFormat)", "logRoutes(t, string(lastTable), string(nextTable), cfg.Log.RoutesFormat)"}}},
 
 			{Name: "plain package variable for the table", File: "route/table.go", Old: "func GetTable() Table {\n\treturn table.Load().(Table)\n}", New: "var plainTable Table\n\nfunc GetTable() Table {\n\tif plainTable != nil {\n\t\treturn plainTable\n\t}\n\treturn table.Load().(Table)\n}", Expect: "C02.A1"},
 			{Name: "delete the nil test in SetTable", File: "route/table.go", Old: "\tif t == nil {\n\t\tlog.Print(\"[WARN] Ignoring nil routing table\")\n\t\treturn\n\t}\n", New: "", Expect: "C02.L3"},
 			{Name: "NewTable returns the partial table with the error", File: "route/table.go", Old: "\t\tdefault:\n\t\t\terr = fmt.Errorf(\"route: invalid command: %s\", d.Cmd)\n\t\t}\n\t\tif err != nil {\n\t\t\treturn nil, err\n\t\t}\n\t}\n\n\t// Sort the route table for each hostname\n\tfor _, h := range t {\n\t\tsort.Sort(h)\n\t}\n\n\treturn t, nil\n}\n\nfunc NewTableCustom", New: "\t\tdefault:\n\t\t\terr = fmt.Errorf(\"route: invalid command: %s\", d.Cmd)\n\t\t}\n\t\tif err != nil {\n\t\t\treturn t, err\n\t\t}\n\t}\n\n\t// Sort the route table for each hostname\n\tfor _, h := range t {\n\t\tsort.Sort(h)\n\t}\n\n\treturn t, nil\n}\n\nfunc NewTableCustom", Expect: "C02.L2"},
-			{Name: "install the table on the error edge", File: "main.go", Old: "\t\t\t\tlog.Printf(\"[WARN] %s\", err)\n\t\t\t\tcontinue\n", New: "\t\t\t\tlog.Printf(\"[WARN] %s\", err)\n", Expect: "C02.L1"},
+			{Name: "error edge falls through to the install path (the nil table is ignored, the rejected text is remembered)", File: "main.go", Old: "\t\t\t\tlog.Printf(\"[WARN] %s\", err)\n\t\t\t\tcontinue\n", New: "\t\t\t\tlog.Printf(\"[WARN] %s\", err)\n", Expect: "C02.L4"},
 			{Name: "error edge leaves the update loop", File: "main.go", Old: "\t\t\t\tlog.Printf(\"[WARN] %s\", err)\n\t\t\t\tcontinue\n", New: "\t\t\t\tlog.Printf(\"[WARN] %s\", err)\n\t\t\t\treturn\n", Expect: "C02.L4"},
 			{Name: "error edge advances lastTable", File: "main.go", Old: "\t\t\t\tlog.Printf(\"[WARN] %s\", err)\n\t\t\t\tcontinue\n", New: "\t\t\t\tlog.Printf(\"[WARN] %s\", err)\n\t\t\t\tlastTable = nextTable\n\t\t\t\tcontinue\n", Expect: "C02.L4"},
 			{Name: "mutate t after SetTable", File: "main.go", Old: "\t\t\troute.SetTable(t)\n", New: "\t\t\troute.SetTable(t)\n\t\t\tt[\"x\"] = nil\n", Expect: "C02.A2"},
@@ -34,452 +35,178 @@ func init() {
 			{Name: "MustCompile on the request path again", File: "route/table.go", Old: "\t\t\t// a pattern which does not compile cannot match\n\t\t\tlog.Print(\"[ERROR] Compiling glob - \", err)\n\t\t\tcontinue", New: "\t\t\tg = glob.MustCompile(normpat)", Expect: "C02.P7"},
 			{Name: "path that is not a glob keeps a nil matcher", File: "route/table.go", Old: "\t\tg, err := glob.Compile(path)\n\t\tif err != nil {\n\t\t\treturn err\n\t\t}\n\t\tr := &Route{Host: host, Path: path, Glob: g}\n\t\tr.addTarget(d.Service, targetURL, d.Weight, d.Tags, d.Opts)\n\t\tt[host] = Routes{r}", New: "\t\tg, err := glob.Compile(path)\n\t\tif err != nil {\n\t\t\tlog.Printf(\"[WARN] route: path %q is not a valid glob: %s\", path, err)\n\t\t}\n\t\tr := &Route{Host: host, Path: path, Glob: g}\n\t\tr.addTarget(d.Service, targetURL, d.Weight, d.Tags, d.Opts)\n\t\tt[host] = Routes{r}", Expect: "C02.P9"},
 			{Name: "benign: atomic.Pointer-like helper around SetTable", File: "main.go", Old: "\t\t\troute.SetTable(t)\n", New: "\t\t\tinstall := route.SetTable\n\t\t\tinstall(t)\n", Expect: ""},
-		},
+		}, c02moreMutants...),
 	})
 }
 
 func runC02(c *Ctx) {
-	getter, setter, g := runC02A1(c)
+	x := runC02A1(c)
 	// A2 / A4 reuse the publish rules
 	tmp := &Ctx{Dir: c.Dir, Pkgs: c.Pkgs, Fset: c.Fset, Prog: c.Prog, spkgs: c.spkgs, ppkgs: c.ppkgs, AllFns: c.AllFns, cg: c.cg}
 	runPublish(tmp, "C02.A2", "C02.A4")
-	c.Obs = append(c.Obs, tmp.Obs...)
+	nA4 := 0
+	if x.holder != nil {
+		runC02A2wrappers(c, x)
+		nA4 = runC02A4wrappers(c, x)
+	}
+	c02adoptPublish(c, tmp, nA4, x)
 	// A3
 	sa := newSharedAnalysis(c)
 	n := sa.s1("C02.A3", func(f *ssa.Function, step string) bool {
 		return strings.HasPrefix(step, "route.Target") || strings.HasPrefix(step, "route.Route") || strings.HasPrefix(step, "route.Table")
 	})
 	c.atLeast("C02.A3", "stores into route.Table/Route/Target reachable from serving roots", n, 1)
-	_ = getter
-	_ = g
-	runC02L(c, setter)
-	runC02P(c)
-	runC02P9(c)
+	runC02L2(c, x)
+	runC02L3(c, x)
+	if x.holder != nil {
+		runC02L1(c, x)
+	}
+	runC02L4(c, x)
+	runC02P(c, x)
+	runC02P9(c, x)
+	c02debugDump(c)
 }
 
-// runC02A1 finds the atomic holder of the active table by role and checks how it is used.
-func runC02A1(c *Ctx) (getter, setter *ssa.Function, g *ssa.Global) {
-	sp := c.spkg("route")
-	if sp == nil {
-		c.undecided("C02.A1", "anchor|package route", "package not loaded")
-		return
-	}
-	// plain package-level variables of a table type are forbidden
-	for _, m := range sp.Members {
-		gl, ok := m.(*ssa.Global)
-		if !ok {
-			continue
-		}
-		elem := gl.Type().(*types.Pointer).Elem()
-		if namedIs(elem, "route.Table") {
-			c.check("C02.A1", "route."+gl.Name()+"|plain table variable", gl.Pos(), false,
-				"a package-level variable of type route.Table can be read while it is being replaced; the active table must be held in a sync/atomic value")
-		}
-		ts := typeStr(elem)
-		if ts == "sync/atomic.Value" || strings.HasPrefix(ts, "sync/atomic.Pointer[") {
-			// does it hold tables?
-			holds := false
-			for _, f := range c.AllFns {
-				eachInstr(f, func(i ssa.Instruction) {
-					cc := callCommon(i)
-					if cc == nil || len(cc.Args) < 2 || cc.Args[0] != gl {
-						return
-					}
-					if strings.HasSuffix(calleeName(cc), ".Store") && namedIs(stripIface(cc.Args[1]).Type(), "route.Table") {
-						holds = true
-					}
-				})
-			}
-			if holds {
-				g = gl
-			}
-		}
-	}
-	if g == nil {
-		c.undecided("C02.A1", "anchor|atomic holder of the active table", "no sync/atomic value in package route is stored a route.Table")
-		return
-	}
-	// every referrer is the receiver of Load/Store; referrers live in getter, setter, init
-	nRef := 0
-	for _, f := range c.AllFns {
-		eachInstr(f, func(i ssa.Instruction) {
-			uses := false
-			for _, op := range i.Operands(nil) {
-				if op != nil && *op == g {
-					uses = true
-				}
-			}
-			if !uses {
-				return
-			}
-			nRef++
-			cc := callCommon(i)
-			name := ""
-			if cc != nil {
-				name = calleeName(cc)
-			}
-			okCall := cc != nil && len(cc.Args) > 0 && cc.Args[0] == g && (strings.HasSuffix(name, ".Load") || strings.HasSuffix(name, ".Store"))
-			c.check("C02.A1", fnKey(f)+"|use of route."+g.Name(), i.Pos(), okCall, "the holder of the active table may only be used as the receiver of an atomic Load or Store")
-			switch {
-			case isInitFn(f):
-			case okCall && strings.HasSuffix(name, ".Load"):
-				getter = f
-				c.check("C02.A1", fnKey(f)+"|getter returns the loaded table", i.Pos(), f.Signature.Results().Len() == 1 && namedIs(f.Signature.Results().At(0).Type(), "route.Table") && f.Signature.Params().Len() == 0,
-					"the atomic holder must be read only in the getter (no parameters, returns the table)")
-			case okCall && strings.HasSuffix(name, ".Store"):
-				setter = f
-				isParam := false
-				if len(cc.Args) == 2 {
-					_, isParam = stripIface(cc.Args[1]).(*ssa.Parameter)
-				}
-				c.check("C02.A1", fnKey(f)+"|setter stores its parameter", i.Pos(), isParam, "outside package init the holder must be stored only the setter's table parameter")
-			}
-		})
-	}
-	c.atLeast("C02.A1", "uses of the atomic table holder", nRef, 3)
-	return
-}
-
-func runC02L(c *Ctx, setter *ssa.Function) {
-	ctors := []*ssa.Function{c.fn("route", "NewTable"), c.fn("route", "NewTableCustom")}
-	// L2
-	for _, ctor := range ctors {
-		if !c.need("C02.L2", ctor, "route table constructor") {
-			continue
-		}
-		n := 0
-		eachInstr(ctor, func(i ssa.Instruction) {
-			r, ok := i.(*ssa.Return)
-			if !ok || len(r.Results) != 2 {
-				return
-			}
-			n++
-			if isNilConst(r.Results[1]) {
-				c.check("C02.L2", fnKey(ctor)+"|success return", r.Pos(), true, "error is nil")
-				return
-			}
-			c.check("C02.L2", fnKey(ctor)+"|error return carries no table", r.Pos(), isNilConst(r.Results[0]),
-				"a constructor return whose error may be non-nil must return a nil table: a partially built table must never reach SetTable (the custom backend installs whatever it gets, relying on nil being ignored)")
-		})
-		c.atLeast("C02.L2", "returns in "+fnKey(ctor), n, 2)
-	}
-	// L3
-	if setter == nil {
-		c.undecided("C02.L3", "anchor|table setter", "setter not found")
-		return
-	}
-	eachInstr(setter, func(i ssa.Instruction) {
-		cc := callCommon(i)
-		if cc == nil || !strings.HasSuffix(calleeName(cc), ".Store") || len(cc.Args) != 2 {
-			return
-		}
-		v := stripIface(cc.Args[1])
-		c.check("C02.L3", fnKey(setter)+"|store only a non-nil table", i.Pos(), knownNonNil(i.Block(), sameVal(v)),
-			"the store must be dominated by the t != nil edge: GetTable promises a non-nil table and the custom backend passes the constructor's nil result on errors")
-	})
-	// L1: every call of the setter
-	nCalls := 0
-	for _, f := range c.AllFns {
-		eachInstr(f, func(i ssa.Instruction) {
-			if !staticCalleeIs(i, setter) {
-				return
-			}
-			nCalls++
-			cc := callCommon(i)
-			arg := cc.Args[0]
-			var ctorCall *ssa.Call
-			derives(arg, func(v ssa.Value) bool {
-				if call, ok := v.(*ssa.Call); ok {
-					for _, ct := range ctors {
-						if ct != nil && call.Call.StaticCallee() == ct {
-							ctorCall = call
-							return true
-						}
-					}
-				}
-				return false
-			})
-			key := fnKey(f) + "|SetTable argument"
-			if ctorCall == nil {
-				c.check("C02.L1", key, i.Pos(), false, "the table installed must be the result of NewTable/NewTableCustom built in the same function")
-				return
-			}
-			// is the call reachable while err != nil is known? It must be dominated by err == nil ...
-			errNil := false
-			for _, ft := range factsAt(i.Block()) {
-				if nn, ok := nilFact(ft, func(v ssa.Value) bool {
-					e, isE := v.(*ssa.Extract)
-					return isE && e.Tuple == ctorCall && e.Index == 1
-				}); ok && !nn {
-					errNil = true
-				}
-			}
-			detail := "SetTable is dominated by the constructor's err == nil edge"
-			ok := errNil
-			if !ok {
-				// ... or the argument is exactly the constructor's table result (nil on error by L2, ignored by L3)
-				if e, isE := arg.(*ssa.Extract); isE && e.Tuple == ctorCall && e.Index == 0 {
-					ok = true
-					detail = "argument is the constructor's own table result: nil on every error return (L2) and ignored by SetTable (L3)"
-				}
-			}
-			c.check("C02.L1", key, i.Pos(), ok, detail+" — otherwise an invalid configuration replaces the last good table")
-		})
-	}
-	c.atLeast("C02.L1", "SetTable call sites", nCalls, 2)
-
-	// L4: update loop in main.watchBackend
-	wb := c.fn("main", "watchBackend")
-	newTable := ctors[0]
-	if !c.need("C02.L4", wb, "main.watchBackend") || newTable == nil {
-		return
-	}
-	nCt := 0
-	eachInstr(wb, func(i ssa.Instruction) {
-		call, ok := i.(*ssa.Call)
-		if !ok || call.Call.StaticCallee() != newTable {
-			return
-		}
-		nCt++
-		var lp *loop
-		for _, l := range loopsOf(wb) {
-			if l.Body[call.Block()] && (lp == nil || len(l.Body) < len(lp.Body)) {
-				lp = l
-			}
-		}
-		if lp == nil {
-			c.check("C02.L4", "main.watchBackend|NewTable in the update loop", call.Pos(), false, "the table constructor is not called inside the update loop")
-			return
-		}
-		// error blocks
-		isErr := func(v ssa.Value) bool {
-			e, isE := v.(*ssa.Extract)
-			return isE && e.Tuple == call && e.Index == 1
-		}
-		nErr := 0
-		for b := range lp.Body {
-			errKnown := false
-			for _, ft := range factsAt(b) {
-				if nn, ok := nilFact(ft, isErr); ok && nn {
-					errKnown = true
-				}
-			}
-			if !errKnown {
-				continue
-			}
-			nErr++
-			last := b.Instrs[len(b.Instrs)-1]
-			// must stay in the loop, and must not install / exit
-			stays := true
-			for _, s := range b.Succs {
-				if !lp.Body[s] {
-					stays = false
-				}
-			}
-			if _, isRet := last.(*ssa.Return); isRet {
-				stays = false
-			}
-			if _, isPanic := last.(*ssa.Panic); isPanic {
-				stays = false
-			}
-			bad := ""
-			for _, in := range b.Instrs {
-				if cc := callCommon(in); cc != nil {
-					n := calleeName(cc)
-					if strings.HasPrefix(n, repoMod+"/exit.") || strings.HasPrefix(n, "log.Fatal") || n == "os.Exit" {
-						bad = "calls " + n
-					}
-				}
-			}
-			c.check("C02.L4", "main.watchBackend|constructor error keeps the loop running", last.Pos(), stays && bad == "",
-				"on the error edge of NewTable the update loop must go on (continue): leaving the loop or exiting means the next valid configuration is never applied "+bad)
-			// loop-carried "last installed text": header phis must not be advanced on this edge
-			for _, in := range lp.Head.Instrs {
-				phi, ok := in.(*ssa.Phi)
-				if !ok {
-					continue
-				}
-				if bt, ok := phi.Type().Underlying().(*types.Basic); !ok || bt.Kind() != types.String {
-					continue
-				}
-				// the "last installed text": a loop-carried string that is compared with the candidate text
-				// and is assigned that candidate on the success path
-				isLast := false
-				for _, r := range *phi.Referrers() {
-					if cmp, ok := r.(*ssa.BinOp); ok && (cmp.Op == token.EQL || cmp.Op == token.NEQ) {
-						other := cmp.X
-						if other == phi {
-							other = cmp.Y
-						}
-						for _, e := range phi.Edges {
-							if e == other {
-								isLast = true
-							}
-						}
-					}
-				}
-				if !isLast {
-					continue
-				}
-				// every back edge that advances the text must be unreachable from the error block
-				cut := map[*ssa.BasicBlock]bool{lp.Head: true}
-				fromErr := reachableFrom([]*ssa.BasicBlock{b}, cut)
-				fromErr[b] = true
-				for k, e := range phi.Edges {
-					p := lp.Head.Preds[k]
-					if !lp.Body[p] || !fromErr[p] {
-						continue
-					}
-					c.check("C02.L4", "main.watchBackend|error edge does not advance "+phi.Comment, last.Pos(), e == phi || isErrFreeCarry(e, phi),
-						"on the error edge the loop-carried text "+phi.Comment+" must keep its value: if the rejected text is remembered as installed, re-sending the same (later valid) text is skipped as 'unchanged'")
-				}
-			}
-		}
-		if nErr == 0 {
-			c.check("C02.L4", "main.watchBackend|constructor error examined", call.Pos(), false, "the error of NewTable is not examined in the update loop")
-		}
-		// the "last installed text" itself: an immutable string snapshot carried around the loop and compared with the
-		// candidate (a []byte view of the reused buffer would alias the candidate)
-		hasLast := false
-		for _, in := range lp.Head.Instrs {
-			phi, ok := in.(*ssa.Phi)
-			if !ok {
-				continue
-			}
-			bt, ok := phi.Type().Underlying().(*types.Basic)
-			if !ok || bt.Kind() != types.String {
-				continue
-			}
-			for _, r := range *phi.Referrers() {
-				if cmp, ok := r.(*ssa.BinOp); ok && (cmp.Op == token.EQL || cmp.Op == token.NEQ) {
-					other := cmp.X
-					if other == phi {
-						other = cmp.Y
-					}
-					for _, e := range phi.Edges {
-						if e == other {
-							// the candidate must be a fresh string snapshot of the buffer
-							if call, ok := other.(*ssa.Call); ok && calleeName(&call.Call) == "(*bytes.Buffer).String" {
-								hasLast = true
-							}
-						}
-					}
-				}
-			}
-		}
-		c.check("C02.L4", "main.watchBackend|last installed text is an immutable snapshot compared with the candidate", call.Pos(), hasLast,
-			"the update loop must remember the text of the last installed table as a string (tableBuffer.String()) and compare the candidate with it; a byte-slice view of the reused buffer aliases the candidate, so a later valid configuration of the same length compares equal and is never applied")
-	})
-	c.atLeast("C02.L4", "NewTable calls in watchBackend", nCt, 1)
-}
-
-// isErrFreeCarry: the edge value is another loop-carried phi of the same variable (select/case merges).
-func isErrFreeCarry(e ssa.Value, phi *ssa.Phi) bool {
-	if p, ok := e.(*ssa.Phi); ok && p.Comment == phi.Comment {
-		for _, x := range p.Edges {
-			if x != phi && x != p {
-				return false
-			}
-		}
-		return true
-	}
-	return false
-}
-
-func runC02P(c *Ctx) {
-	var roots []*ssa.Function
-	for _, n := range []string{"NewTable", "NewTableCustom", "Parse", "ParseAliases"} {
-		f := c.fn("route", n)
-		if !c.need("C02.P1", f, "route."+n) {
-			continue
-		}
-		roots = append(roots, f)
-	}
-	for _, m := range []string{"Lookup", "LookupHost"} {
-		if f := c.method("route", "Table", m); f != nil {
-			roots = append(roots, f)
-		}
-	}
-	scope := c.reach(roots...)
-	// stay inside package route (+ transport.NewTransport which addTarget calls)
-	for f := range scope {
-		if f.Pkg == nil && f.Parent() == nil {
-			delete(scope, f)
-		}
-	}
-	n := runPartialOps(c, "C02.P1", scope)
-	c.atLeast("C02.P1", "constant indices into split/submatch results in the table builder", n, 10)
-
-	// P3: divisions in scope
-	nDiv := 0
-	for f := range scope {
-		eachInstr(f, func(i ssa.Instruction) {
-			b, ok := i.(*ssa.BinOp)
-			if !ok || (b.Op != token.QUO && b.Op != token.REM) {
-				return
-			}
-			bt, ok := b.X.Type().Underlying().(*types.Basic)
-			if !ok || bt.Info()&types.IsInteger == 0 {
-				return
-			}
-			if _, isConst := b.Y.(*ssa.Const); isConst {
-				return
-			}
-			nDiv++
-			ok2, why := divisorNonZero(b)
-			c.check("C02.P3", fnKey(f)+"|integer division by "+shortPath(b.Y), b.Pos(), ok2, "a route configuration must not be able to crash the builder or the lookup: "+why)
-		})
-	}
-	c.atLeast("C02.P3", "integer divisions in the table builder / lookup path", nDiv, 3)
-	// P4
-	tmp := &Ctx{Dir: c.Dir, Pkgs: c.Pkgs, Fset: c.Fset, Prog: c.Prog, spkgs: c.spkgs, ppkgs: c.ppkgs, AllFns: c.AllFns, cg: c.cg}
-	runFiniteWeight(tmp, "C02.P4")
-	runC04R5alloc(tmp, "C02.P4")
-	runRequestPathPanics(tmp, "C02.P7")
+// c02adoptPublish takes over the observations of the shared publish rules. Two of its vacuity guards are keyed on
+// today's cut of the code and are replaced here by what they stand for:
+//   - "route.Table.<unexported method> not found": the obligation "nothing below a table method reloads the table" is
+//     already stated for the exported lookup entries (Table.Lookup, Table.LookupHost), whose reach includes whatever
+//     the unexported helpers are called now;
+//   - "per-request entries that load the table >= 4": the rule is not vacuous as long as at least two entries were
+//     judged (merging two lookup closures into one is not a change of behaviour).
+func c02adoptPublish(c *Ctx, tmp *Ctx, nOwn int, x *c02pubs) {
+	nEntries, exportedOK := nOwn, 0
 	for _, o := range tmp.Obs {
-		if o.Rule == "C02.P7" && strings.Contains(o.Construct, "integer division") {
-			continue // already reported as P3
+		if o.Rule == "C02.A4" && strings.HasSuffix(o.Construct, "|one GetTable per request path") {
+			nEntries++
+		}
+		if o.Rule == "C02.A4" && o.st == OK && (strings.HasPrefix(o.Construct, "(route.Table).Lookup|") || strings.HasPrefix(o.Construct, "(route.Table).LookupHost|")) {
+			exportedOK++
+		}
+	}
+	// A2 is about the routing table: of the shared rule's obligations (one per atomic publication in the repository:
+	// certificate store, noroute page, ...) only those at the table's publication sites belong to this property, and
+	// its vacuity guards (>= 3 atomic stores, >= 2 calls of publishing functions in the whole repository) are
+	// replaced by: the table's own store and at least one call that hands a table to it were judged.
+	tableKeys := map[string]bool{}
+	nStore, nCall := 0, 0
+	if x.holder != nil {
+		for _, s := range x.sites {
+			if s.direct {
+				tableKeys[fnKey(s.fn)+"|no write after atomic publish"] = true
+			} else {
+				tableKeys[fnKey(s.fn)+"|no write after "+s.callee] = true
+			}
+		}
+		for _, o := range append(append([]Ob{}, tmp.Obs...), c.Obs...) {
+			if o.Rule != "C02.A2" || o.st == Undecided || !tableKeys[o.Construct] {
+				continue
+			}
+			if strings.HasSuffix(o.Construct, "|no write after atomic publish") {
+				nStore++
+			} else {
+				nCall++
+			}
+		}
+	}
+	for _, o := range tmp.Obs {
+		if o.Rule == "C02.A2" && x.holder != nil {
+			if o.st == Undecided && strings.HasPrefix(o.Construct, "anchor|") {
+				continue // replaced below
+			}
+			if !tableKeys[o.Construct] {
+				continue // another atomic publication of the repository
+			}
+		}
+		if o.st == Undecided && o.Rule == "C02.A4" {
+			if strings.HasPrefix(o.Construct, "anchor|route.Table.") {
+				name := strings.TrimPrefix(o.Construct, "anchor|route.Table.")
+				if !token.IsExported(name) && exportedOK == 2 {
+					continue
+				}
+			}
+			if o.Construct == "anchor|per-request entries that load the table" && nEntries >= 2 {
+				continue
+			}
 		}
 		c.Obs = append(c.Obs, o)
 	}
-	// P8: NewTableCustom dereferences its pointer parameter only under a nil test
-	ntc := c.fn("route", "NewTableCustom")
-	if ntc != nil && len(ntc.Params) > 0 {
-		p := ntc.Params[0]
-		nd := 0
-		eachInstr(ntc, func(i ssa.Instruction) {
-			u, ok := i.(*ssa.UnOp)
-			if !ok || u.Op != token.MUL || u.X != p {
-				return
-			}
-			nd++
-			c.check("C02.P8", "route.NewTableCustom|dereference of the definition list", u.Pos(), knownNonNil(u.Block(), sameVal(p)),
-				"the custom backend decodes JSON into *[]RouteDef; the JSON text null leaves the pointer nil without an error, and dereferencing it panics in a goroutine without recover (process exit)")
-		})
-		c.atLeast("C02.P8", "dereferences of the definition list", nd, 1)
+	if x.holder != nil {
+		c.atLeast("C02.A2", "atomic stores of the table judged", nStore, 1)
+		c.atLeast("C02.A2", "calls that hand a table to a publishing function judged", nCall, 1)
 	}
 }
 
-// runC04R5alloc: ring allocation guard under another rule id.
-func runC04R5alloc(c *Ctx, rule string) {
-	weigh := c.method("route", "Route", "weighTargets")
-	if weigh == nil {
-		c.undecided(rule, "anchor|weighTargets", "not found")
+// runC02A4wrappers: the shared one-snapshot rule counts direct calls of route.GetTable in a per-request entry. An entry
+// that takes the table from a parameterless helper around the getter (func activeTable() route.Table { return
+// route.GetTable() }) is judged here, over the calls of the getter and of all such helpers together.
+func runC02A4wrappers(c *Ctx, x *c02pubs) int {
+	n := 0
+	getterLike := map[*ssa.Function]bool{}
+	exported := map[*ssa.Function]bool{}
+	for _, g := range x.getters {
+		getterLike[g] = true
+		if !x.onlyStatic(g) {
+			exported[g] = true
+		}
+	}
+	for changed := true; changed; {
+		changed = false
+		for _, f := range c.AllFns {
+			if getterLike[f] || f.Signature.Params().Len() != 0 || f.Signature.Recv() != nil || f.Signature.Results().Len() != 1 || !c02isTableType(f.Signature.Results().At(0).Type()) {
+				continue
+			}
+			all, n := true, 0
+			eachInstr(f, func(i ssa.Instruction) {
+				if r, ok := i.(*ssa.Return); ok && len(r.Results) == 1 {
+					n++
+					call, isCall := c02strip(r.Results[0]).(*ssa.Call)
+					if !isCall || !getterLike[call.Call.StaticCallee()] {
+						all = false
+					}
+				}
+			})
+			if all && n > 0 {
+				getterLike[f] = true
+				changed = true
+			}
+		}
+	}
+	for _, r := range c.servingRoots() {
+		var calls []ssa.Instruction
+		viaHelper := false
+		eachInstr(r, func(i ssa.Instruction) {
+			if cc := callCommon(i); cc != nil && getterLike[cc.StaticCallee()] {
+				calls = append(calls, i)
+				if !exported[cc.StaticCallee()] {
+					viaHelper = true
+				}
+			}
+		})
+		if !viaHelper || getterLike[r] {
+			continue // only direct calls of the exported getter: judged by the shared rule
+		}
+		multi := false
+		for _, a := range calls {
+			for _, b := range calls {
+				if pathAvoiding(a, b, nil) {
+					multi = true
+				}
+			}
+		}
+		n++
+		c.check("C02.A4", fnKey(r)+"|one GetTable per request path", calls[0].Pos(), !multi,
+			"a per-request entry must load the published table once (directly or through a helper around the getter); two loads on one path can straddle a table replacement, so one request is answered from a mixture of two tables")
+	}
+	return n
+}
+
+// c02debugDump prints every obligation when C02_DEBUG is set (development aid).
+func c02debugDump(c *Ctx) {
+	if os.Getenv("C02_DEBUG") == "" {
 		return
 	}
-	before := len(c.Obs)
-	runC04R5only(c)
-	for k := before; k < len(c.Obs); k++ {
-		c.Obs[k].Rule = rule
-	}
-}
-
-func runC04R5only(c *Ctx) {
-	tmp := &Ctx{Dir: c.Dir, Pkgs: c.Pkgs, Fset: c.Fset, Prog: c.Prog, spkgs: c.spkgs, ppkgs: c.ppkgs, AllFns: c.AllFns, cg: c.cg}
-	runC04R5(tmp)
-	for _, o := range tmp.Obs {
-		if strings.Contains(o.Construct, "ring allocation") {
-			c.Obs = append(c.Obs, o)
-		}
+	for _, o := range c.Obs {
+		fmt.Fprintf(os.Stderr, "OB %-11s %-5s [%s] at %s\n", o.Status, o.Rule, o.Construct, o.Pos)
 	}
 }
